@@ -55,6 +55,7 @@ Definition justified_choices : list site := [
   S "RetentionPolicyInfo.validMeasurementShardType" "rpi.Measurements" 1; (* any other measurement: sharding type uniform per policy *)
   S "RetentionPolicyInfo.shardingType" "rpi.Measurements" 1;  (* last one wins: sharding type uniform per policy *)
   S "Data.DropMeasurement" "rpi.Measurements" 1;              (* search for a key: at most one element matches *)
+  S "Data.mapShardsToMst" "rpi.Measurements" 1;               (* scratch variable declared outside the loop, written and read within one iteration *)
   S "Data.RecoverData" "metaData.PtView" 1;                   (* RecoverMetaData: outside the exercised command set *)
   S "storeFSM.applyDropDatabaseCommand" "dbi.ContinuousQueries" 1; (* removes names from the sorted scheduling list: set semantics, not catalogue *)
   S "Data.DropSubscription" "db.RetentionPolicies" 3          (* NOT harmless: finding C15-dropsubscription-map-order *)
